@@ -17,6 +17,7 @@ CONVERSIONS = ["project", "bytemask", "simplify", "toIndexedOptionArray64", "toB
 
 class C09(e1.E1Check):
     id = "C09"
+    l3_table = "C09"
     types_quick = [opt(I), var(opt(I)), opt(var(I)), opt(var(opt(I))), var(I), var(var(I)), reg(2, I), var(reg(2, I)), I,
                    opt(rec(("x", I))), var(opt(rec(("x", I), ("y", var(I))))), opt(S), var(opt(S)), rec(("x", opt(I)), ("y", var(I))),
                    reg(2, opt(I)), opt(reg(2, I))]
